@@ -4,6 +4,48 @@ import re
 NS = {'1.0': 'http://www.cellml.org/cellml/1.0#', '1.1': 'http://www.cellml.org/cellml/1.1#'}
 
 
+def split_encapsulation(t, rng):
+    """the one <encapsulation> block of a printed 2.0 document rewritten as several: the roots are dealt out to two or three
+    blocks in their order, and the subtree of a component that is the last child of its parent may be cut out and described
+    by a block of its own further down (where it stands, a childless component_ref is left)"""
+    m = re.search(r'(  <encapsulation[^>]*>\n)(.*?)(  </encapsulation>\n)', t, re.S)
+    if not m or rng.random() < 0.35:
+        return t
+    lines = m.group(2).split('\n')[:-1]
+    extra = []
+    # cut out the subtree of a last child
+    if rng.random() < 0.5:
+        cands = []
+        for i, l in enumerate(lines):
+            ind = len(l) - len(l.lstrip())
+            if ind >= 6 and l.strip().startswith('<component_ref') and not l.rstrip().endswith('/>'):
+                j = next(k for k in range(i + 1, len(lines)) if lines[k] == ' ' * ind + '</component_ref>')
+                if j + 1 < len(lines) and lines[j + 1] == ' ' * (ind - 2) + '</component_ref>':
+                    cands.append((i, j, ind))
+        if cands:
+            i, j, ind = rng.choice(cands)
+            sub = [l[ind - 4:] for l in lines[i:j + 1]]
+            name = re.search(r'component="([^"]*)"', lines[i]).group(1)
+            lines = lines[:i] + [' ' * ind + '<component_ref component="%s"/>' % name] + lines[j + 1:]
+            extra = sub
+    roots, cur = [], []
+    for l in lines:
+        cur.append(l)
+        if l.startswith('    <component_ref') and l.rstrip().endswith('/>') and len(cur) == 1 or l == '    </component_ref>':
+            roots.append(cur); cur = []
+    if cur:
+        return t
+    k = rng.randint(1, min(3, len(roots))) if roots else 1
+    cuts = sorted(rng.sample(range(1, len(roots)), k - 1)) if k > 1 else []
+    parts = [roots[a:b] for a, b in zip([0] + cuts, cuts + [len(roots)])]
+    blocks = []
+    for n, part in enumerate(parts):
+        blocks.append((m.group(1) if n == 0 else '  <encapsulation>\n') + ''.join(l + '\n' for r in part for l in r) + m.group(3))
+    if extra:
+        blocks.append('  <encapsulation>\n' + ''.join(l + '\n' for l in extra) + m.group(3))
+    return t[:m.start()] + ''.join(blocks) + t[m.end():]
+
+
 def to1x(text, version, rng, respell_math=False):
     t = text.replace('http://www.cellml.org/cellml/2.0#', NS[version])
     t = t.replace('<model xmlns=', '<model xmlns:cmeta="http://www.cellml.org/metadata/1.0#" xmlns=', 1)
@@ -22,7 +64,11 @@ def to1x(text, version, rng, respell_math=False):
             return a + b if rng.random() < 0.5 else b + a
         return rng.choice(['', ' public_interface="none"', ' private_interface="none" public_interface="none"'])
     t = re.sub(r' interface="(\w+)"', iface, t)
-    # encapsulation
+    # a 1.x unit may carry an offset, which 2.0 cannot represent (dropped with a message)
+    if rng.random() < 0.4:
+        t = re.sub(r'<unit ', lambda m: '<unit offset="%s" ' % rng.choice(['273.15', '0', '-32']) if rng.random() < 0.3 else m.group(0), t)
+    # encapsulation: a 1.x model may describe its hierarchy with several groups
+    t = split_encapsulation(t, rng)
     # a 1.x group may carry several relationship_ref elements (encapsulation and a named containment hierarchy), in any order;
     # a group that only describes containment is not encapsulation and is dropped
     def group(m):
